@@ -3,12 +3,18 @@ loop, a blown stack inside the tree under check) must not block a check for ever
 import multiprocessing
 import os
 
-TASK_TIMEOUT = float(os.environ.get("VERIF_TASK_TIMEOUT", "7200"))
+def _default():
+    # a slow but finite task on a loaded machine must never be taken for a hang: one hour in the
+    # quick tier (tasks take seconds to a few minutes), six hours in the thorough tier
+    return 21600.0 if os.environ.get("VERIF_TIER_RUNNING") == "thorough" else 3600.0
+
+
+TASK_TIMEOUT = float(os.environ.get("VERIF_TASK_TIMEOUT", "0")) or None
 
 
 class Stuck(Exception):
     def __init__(self, task):
-        Exception.__init__(self, "no result within %.0fs" % TASK_TIMEOUT)
+        Exception.__init__(self, "no result within %.0fs" % (TASK_TIMEOUT or _default()))
         self.task = task
 
 
@@ -19,7 +25,7 @@ def imap(pool, fn, tasks, timeout=None):
     it = pool.imap(fn, tasks, chunksize=1)
     for i in range(len(tasks)):
         try:
-            yield it.next(timeout=timeout or TASK_TIMEOUT)
+            yield it.next(timeout=timeout or TASK_TIMEOUT or _default())
         except StopIteration:
             return
         except multiprocessing.TimeoutError:
